@@ -35,6 +35,10 @@ pub fn snapshot() -> (usize, u64, u64, u64, u64) {
 pub struct Tracked {
     pub q: Q,
     id: u64,
+    /// under Miri every value also owns a heap cell, so that a double drop or a use after drop is undefined behaviour
+    /// that the interpreter reports (natively the ledger does the counting without risking a crash)
+    #[cfg(miri)]
+    _cell: Box<u8>,
 }
 
 impl Tracked {
@@ -47,7 +51,12 @@ impl Tracked {
             l.live.insert(id);
             id
         });
-        Tracked { q, id }
+        Tracked {
+            q,
+            id,
+            #[cfg(miri)]
+            _cell: Box::new(0),
+        }
     }
 }
 impl Clone for Tracked {
@@ -63,7 +72,12 @@ impl Clone for Tracked {
             l.live.insert(id);
             id
         });
-        Tracked { q: self.q, id }
+        Tracked {
+            q: self.q,
+            id,
+            #[cfg(miri)]
+            _cell: Box::new(0),
+        }
     }
 }
 impl Drop for Tracked {
